@@ -42,6 +42,9 @@ def normalize(geom):
     # the complement operator to parse consecutive complement operators.
     g = re_compl_cell.sub(r' ^(\1)', g)
     g = re_compl_surf.sub(r' _(', g)
+    # the blank added in front of a complement must not separate it from a
+    # preceding ':' (it would be taken for an intersection)
+    g = re_union.sub(':', g)
 
     # remove spaces after '(' and before ')'
     g = re_pareno.sub('(', g)
